@@ -16,18 +16,22 @@ CLAIMED = {
         text="TLC checks RoundTrip/AcceptIff on every reachable token state of spec/Core.tla (all 8 protocols x footer x "
              "assertion x every presentation); every unaltered-token behaviour TLC prints is replayed against the real "
              "try_encrypt/try_decrypt and the generic/prelude parsers for every message length 0..=192 (thorough 0..=1024), "
-             "block boundaries, 64 KiB, multi-byte/NUL/'.' content, special keys and nonce seeds; builder->parser round "
-             "trips are covered by the Generic/Prelude model replay (C13/C14 machinery).",
+             "block boundaries, 64 KiB, multi-byte/NUL/'.' content, special keys and nonce seeds; every call history (<= 4/5 calls) of one core "
+             "builder object is executed and each minted token read back under a presentation matrix (CoreObj.tla, trace-validated); "
+             "builder histories of MC_Builder are executed on all protocols and every built token must be readable by the matching parser "
+             "and, for PasetoBuilder, by PasetoParser::default().",
         ref="5 C01", tech="TLA+ token life-cycle model (TLC, exhaustive) + spec->impl replay with length/content sweep"),
     "C02": dict(
-        text="As C01 for try_sign/try_verify: RSA-2048 (4 fixture pairs), Ed25519 and P-384 pairs derived from random seeds.",
+        text="As C01 for try_sign/try_verify (incl. core builder object histories and builder->parser round trips): RSA-2048 (4 fixture "
+             "pairs), Ed25519 and P-384 pairs derived from random seeds.",
         ref="5 C02", tech="TLA+ token life-cycle model (TLC, exhaustive) + spec->impl replay over generated key pairs"),
     "C03": dict(
         text="TLC proves Integrity on the model for every edit kind of the adversary alphabet (flip/truncate/extend/insert/"
              "splice of two authentic tokens/re-encode/non-canonical base64/header/footer-segment edits/relabel) under all "
              "256 presentations; each edited-token behaviour is replayed with the edit expanded to all bit positions, "
              "character substitutions, prefixes and boundary shifts of concrete tokens, through core, generic and prelude "
-             "layers with a counting validator.",
+             "layers with a counting validator; plus random behaviours with up to 4 successive edits from TLC simulation mode; the "
+             "byte-level lemma B64.tla (canonical base64url <-> bytes bijection) is model-checked in the same run.",
         ref="5 C03", tech="TLA+ adversary model (TLC) + exhaustive-position mutation replay against the library"),
     "C04": dict(
         text="KeyBound/AcceptIff on the model; replay with the second key instantiated by all 256 single-bit neighbours, "
@@ -37,11 +41,13 @@ CLAIMED = {
     "C05": dict(
         text="FooterBound/AcceptIff/FooterSeg over the full footer x expected-footer matrix and the footer-segment edit kinds; "
              "replay with prefix/extension/case/last-base64-char footer pairs; every produced token's 4th segment is compared "
-             "with an independently written base64url encoder.",
+             "with an independently written base64url encoder; core builder object histories (CoreObj) cover footers set and changed between mints.",
         ref="5 C05", tech="TLA+ model (TLC) + footer-pair matrix replay + independent base64url oracle"),
     "C06": dict(
         text="AssertBound/AcceptIff/Hidden for v3/v4; replay over assertion pairs incl. prefix/extension; direct checks that "
-             "token length is independent of the assertion and its bytes (all base64 alignments) never occur in the token.",
+             "token length is independent of the assertion and its bytes (all base64 alignments) never occur in the token; the byte-level "
+             "lemma Pae.tla (PAE injective, same-concatenation-different-split) is model-checked in the same run; core builder object "
+             "histories (CoreObj) cover assertions set and changed between mints.",
         ref="5 C06", tech="TLA+ model (TLC, Clear() term analysis) + assertion-pair matrix replay + absence scan"),
     "C07": dict(
         text="ProtoBound over all 56 ordered protocol pairs, verbatim and relabelled, same key bytes where both protocols accept them; "
@@ -70,7 +76,9 @@ CLAIMED.update({
         text="MC_Builder explores every PasetoBuilder call history over {set exp/iat/nbf/custom, acknowledge, set_footer, "
              "set_implicit_assertion, build} to length 6 (thorough 7) with ExpDefault as invariant; every history is executed on the "
              "real builder (all histories on v4, short ones on the other protocols) and every built payload, read back and projected "
-             "to default/caller values, is validated by TLC; plus random histories up to 40 calls.",
+             "to default/caller values, is validated by TLC, as is the verdict of PasetoParser::default() on every built token; plus "
+             "random histories up to 40 calls; thorough: the inductive invariant of the builder model is discharged with Apalache "
+             "(unbounded histories, model level).",
         ref="5 C13", tech="TLA+ builder state machine (TLC, exhaustive histories) + trace validation of executed histories", note=BUILDER_NOTE),
     "C14": dict(
         text="GenericBuilder histories over set_claim/remove_claim (3 keys x 2 values, length 5/6) with the claim map as state; "
@@ -84,7 +92,8 @@ CLAIMED.update({
         ref="5 C17", tech="TLA+ builder state machine (TLC, exhaustive histories) + trace validation of executed histories", note=BUILDER_NOTE),
     "C15": dict(
         text="MC_Parser: every check_claim configuration (2 keys x 2 values, up to 2/3 calls) x every sequence of up to 2 parses of "
-             "tokens carrying every absent/null/v1/v2 combination under either key, ExpectIff and parse-purity as invariants; executed "
+             "tokens carrying every absent/null/v1/v2 combination under either key, configuration calls also after parses (one parser object "
+             "reconfigured and reused), ExpectIff and parse-purity as invariants; executed "
              "with value pairs differing in type/case/number/nested member and keys differing by one character.",
         ref="5 C15", tech="TLA+ parser model composed with the token model (TLC) + trace validation of executed parser histories", note=PARSER_NOTE),
     "C16": dict(
@@ -94,7 +103,8 @@ CLAIMED.update({
         ref="5 C16", tech="TLA+ parser model with order nondeterminism (TLC) + trace validation of logged validator calls", note=PARSER_NOTE),
     "C11": dict(
         text="MC_Parser family c11: PasetoParser::default() against every (exp class, nbf class) pair incl. non-string, empty and "
-             "garbage values, up to 2 parses per parser; the rendering space of past/future instants (every UTC offset -23:59..+23:59, "
+             "garbage values and values equal to the implementation's own placeholders, with and without an additional (shadowed) "
+             "check_claim on exp/nbf whose value equals the token's, up to 2 parses per parser; the rendering space of past/future instants (every UTC offset -23:59..+23:59, "
              "0-9 fraction digits, T/space, 4 instants per class; stride 64 quick, full thorough on v4.local) is executed in parser "
              "objects of 100 parses and validated by TLC.",
         ref="5 C11", tech="TLA+ default-validator model (TLC) + trace validation over the RFC 3339 rendering space", note=PARSER_NOTE),
